@@ -88,6 +88,8 @@ impl Prop for C17 {
                     break;
                 }
             }
+            // 16 MiB through one-byte transfers would be 10^7 stream calls for nothing
+            sc.io = IoKnobs::plain();
         }
         let fault = if r.chance(1, 5) {
             let seq = r.below(4 * n as u64 + 24);
